@@ -279,7 +279,7 @@ def run_harness(work, binp, test, env, timeout=1800, repo=REPO, allow_fail=False
     return p.returncode, p.stdout
 
 
-def run_sharded(work, binp, test, nshards, env_for, timeout=1800):
+def run_sharded(work, binp, test, nshards, env_for, timeout=1800, ok_rc=(0,)):
     """run the same harness test in nshards processes; env_for(i) gives the extra environment"""
     procs = []
     for i in range(nshards):
@@ -315,7 +315,7 @@ def run_sharded(work, binp, test, nshards, env_for, timeout=1800):
                     p.wait()
                     rc = -9
         out.close()
-        if rc != 0:
+        if rc not in ok_rc:
             with open(out.name) as fh:
                 bad.append("shard %d rc=%d: %s" % (i, rc, fh.read()[-2000:]))
     if bad:
